@@ -16,6 +16,7 @@ def run(F, R, ctx):
     _run(F, R, ctx)
     compaction_rule(F, R)
     stats_flow_rule(F, R)
+    entry_cleanup_rule(F, R)
 
 
 def _run(F, R, ctx):
@@ -242,3 +243,34 @@ def stats_flow_rule(F, R):
     R.inst("C19.k", "Heap::mark / the returned statistics include the parallel marker's", from_par,
            "Heap::mark calls the parallel marker but the statistics it returns do not derive from that call's result",
            mark.loc(), sample=True)
+
+
+def entry_cleanup_rule(F, R):
+    R.rule("C19.t", "what a native entry into a closure pushed is taken off again on every exit: in each VmCore function that "
+                    "runs a closure's body through call_with_instructions_and_reset_state and afterwards cuts the operand "
+                    "stack back (Vec<SteelVal>::truncate), every path from the nested run to the function's return passes that "
+                    "truncate — the error exit included. The operand stack is a root set: arguments and locals of a failed "
+                    "host call left on it keep their storage marked at every later collection")
+    run_rx = r"\{impl VmCore\}::call_with_instructions_and_reset_state$"
+    n = 0
+    for name, fn in sorted(F.fns.items()):
+        if not re.match(r"steel::steel_vm::vm::\{impl VmCore\}::", name):
+            continue
+        runs = fn.call_blocks(run_rx)
+        if not runs:
+            continue
+        after = set()
+        for r in runs:
+            after |= fn.reachable_from(fn.succ(r))
+        trunc = [i for i, cb in fn.calls() if i in after and re.search(r"Vec<T,A>\}::truncate$", cb["callee"]) and
+                 cb.get("targs") and cb["targs"][0] == "SteelVal"]
+        if not trunc:
+            continue
+        n += 1
+        ok = all(fn.every_path_passes_from(fn.succ(r), fn.returns(), trunc)[0] for r in runs)
+        R.inst("C19.t", "%s / the operand stack is cut back on every exit after the nested run" % fn.short(), ok,
+               "%s cuts the operand stack back after running the closure only on some paths (an early return — `?` — on the "
+               "error result skips it): after a failed call from the host, the callee's arguments and locals stay on "
+               "SteelThread.stack, which every collection uses as roots, so whatever they referenced is never freed"
+               % fn.short(), fn.loc(fn.blocks[trunc[0]].get("line")), sample=True)
+    R.floor("C19.t", "native entries that cut the stack back", n, 1)
